@@ -27,6 +27,12 @@ pub mod tokio {
             ensures r matches Ok(Ok(v)) ==> v == oneshot::delivered::<T>(rx.chan()) { unimplemented!() }
     }
 }
+// R33: `timeout(d, <call>).await` is extracted as `if vx_timeout_elapsed(d) { Err(vx_elapsed()) } else { Ok(<call>.await) }`
+#[verifier::external_body] pub fn vx_timeout_elapsed(d: Duration) -> (r: bool) { unimplemented!() }
+#[verifier::external_body] pub fn vx_elapsed() -> (r: tokio::time::Elapsed) { unimplemented!() }
+// R34 (`awaitfn=vx_recv`): awaiting a oneshot receiver yields the one value sent through its channel, or RecvError when the sender was dropped
+#[verifier::external_body] pub async fn vx_recv<T>(rx: oneshot::Receiver<T>) -> (r: core::result::Result<T, oneshot::RecvError>)
+    ensures r matches Ok(v) ==> v == oneshot::delivered::<T>(rx.chan()) { unimplemented!() }
 
 // Arc<Mutex<HashMap<u32, oneshot::Sender<Bytes>>>>: the table of requests awaiting a reply.  Between two critical sections
 // other tasks (clones of the requestor, the reply dispatcher) may change it: a guard's initial view is arbitrary.
